@@ -192,7 +192,7 @@ class GenParam(F.Gen):
             b2.append(if_(cmp_('>', V(nl), N(rng.randint(1, 3))), [assign(el('c', V(nl)), mod_(add(el('c', N(1)), V('s')), 11))]))
         if rng.random() < 0.4:
             b2.append(assign(V('s'), mod_(add(V('s'), call('sum', V('w'))), 31)))
-        if rng.random() < 0.3:
+        if rng.random() < 0.15:
             b2.append({'s': 'print', 'items': [V(nl), V(md), V('s')]})
         lev2 = unit('lev2', [nl, md, 'c', 's'], d2, b2)
         # ---- lev1(kl, km, a, b, r)
@@ -247,6 +247,8 @@ class GenParam(F.Gen):
         forms = ['plain'] * 5 + ['expr', 'other', 'lit'] + (['dup'] * 2 if 'dup' in self.f else [])
         self.forms = {'lev1': rng.choice(forms), 'lev2': rng.choice(forms),
                       'size1': 'plain' if rng.random() < 0.85 else 'expr', 'size2': 'plain' if rng.random() < 0.85 else 'expr'}
+        if 'dup' in self.f:
+            self.forms.update({rng.choice(['lev1', 'lev2']): 'dup', 'size1': 'plain', 'size2': 'plain'})
         if 'entry1' in self.f:
             self.forms.update(lev1='plain', size1='plain')
         levs = self.make_lev()
@@ -267,6 +269,10 @@ class GenParam(F.Gen):
         first = self.call_lev1() if 'entry1' in self.f else []
         body = init + first + self.block(depth, nstmts)
         if not any(s['s'] == 'call' and s['name'] == 'lev1' for s in walk_stmts(body)):
+            body += self.call_lev1()
+        if 'mixed' in self.f and len({f for c, f in self.sites if c == 'lev1'}) < 2:
+            self.forms['lev1'] = 'expr' if self.forms['lev1'] == 'plain' else 'plain'
+            self.f.discard('mixed')
             body += self.call_lev1()
         self.in_kernel = False
         body += [assign(V('t2'), call('sum', V('wa'))), assign(V('k'), mod_(add(V('k'), V('t2'), V('t1')), 97))]
@@ -307,6 +313,9 @@ def gen_param_case(rng, features=(), ninputs=6):
     entry = 'lev1' if 'entry1' in features else rng.choice(['role', 'role', 'kernel'])
     cands = ['nlev', 'mode'] + (['n', 'm'] if entry != 'lev1' else [])
     chosen = [v for v in cands if rng.random() < 0.55] or [rng.choice(cands[:2])]
+    for feat, must in (('dup', 'nlev'), ('mixed', 'mode')):
+        if feat in features and must not in chosen:
+            chosen.append(must)
     fixed = {}
     for v in chosen:
         fixed[v] = rng.randint(*g.NLEV) if v == 'nlev' else rng.randint(0, 2) if v == 'mode' else rng.choice([0, 1, 3, 5, 2])
@@ -335,6 +344,20 @@ def transform_param(text, prog, workdir):
     return scheduler_sources(sched)
 
 
+def F_names(e, acc=None):
+    """Names of the variables an expression mentions."""
+    acc = set() if acc is None else acc
+    if isinstance(e, dict):
+        if e.get('k') in ('var', 'arr'):
+            acc.add(e['name'])
+        for v in e.values():
+            F_names(v, acc)
+    elif isinstance(e, list):
+        for v in e:
+            F_names(v, acc)
+    return acc
+
+
 def param_tags(prog):
     """Classification of a parametrised call tree for the violation key (not an oracle): which parametrised
     variables reach which call sites as plain actual arguments.  dup = one of them is passed twice in a call,
@@ -360,6 +383,10 @@ def param_tags(prog):
         tags.add('mixed')
     if p['rbv']:
         tags.add('rbv')
+    for uname, pu in par.items():       # replace_by_value and a parametrised variable is an item of a PRINT statement
+        for s in walk_stmts(units[uname]['body'] if p['rbv'] else []):
+            if s['s'] == 'print' and any(nm in pu for it in s['items'] for nm in F_names(it)):
+                tags.add('prt')
     return '+'.join(sorted(tags)) or 'plain'
 
 
@@ -458,8 +485,11 @@ def param_check(ctx, label, cases, transform, entry='kernel', max_disagree=0.03)
         res['new'] = ('ok' if worst[0] == 'ok' else worst[0], obs, worst[1])
         return res
 
+    import time
+    t0 = time.time()
     with cf.ThreadPoolExecutor(max_workers=8) as ex:
         results = list(ex.map(build_orig, range(len(cases))))
+    t1 = time.time()
     for res in results:
         if res['orig'][0] != 'ok':
             continue
@@ -474,8 +504,10 @@ def param_check(ctx, label, cases, transform, entry='kernel', max_disagree=0.03)
         except Exception as ex:  # pylint: disable=broad-except
             import traceback
             res['new'] = ('transform-raised', None, f'{type(ex).__name__}: {ex}\n' + traceback.format_exc()[-1500:])
+    t2 = time.time()
     with cf.ThreadPoolExecutor(max_workers=8) as ex:
         results = list(ex.map(build_new, results))
+    t3 = time.time()
     tcases, tmeta = [], []
     stats = dict(programs=len(cases), orig_failed=0, not_applicable=0, illegal=0, oracle_disagreement=0, judged=0,
                  judged_matching=0, judged_abort=0)
@@ -500,6 +532,8 @@ def param_check(ctx, label, cases, transform, entry='kernel', max_disagree=0.03)
                 tcases.append(dict(base, observed=r['new'][1][k], mode='new'))
                 tmeta.append((r['idx'], k, 'new'))
     verdicts = ctx.validate('Trace_Parametrise', 'Trace_Parametrise', tcases, timeout=2400, per_shard_min=8) if tcases else {}
+    ctx.cover.setdefault(f'{label}_phase_wall_s', []).append(
+        dict(build_orig=round(t1 - t0, 1), transform=round(t2 - t1, 1), build_new=round(t3 - t2, 1), tlc=round(time.time() - t3, 1)))
     pre = {(idx, k): verdicts[i] for i, (idx, k, mode) in enumerate(tmeta) if mode == 'preflight'}
     bad = {}
     for i, (idx, k, mode) in enumerate(tmeta):
@@ -548,9 +582,16 @@ def output_class(msg):
 
 
 def signature(kind, msg):
+    import re
     if kind == 'output':
         return 'output:' + output_class(msg)
-    return F.failure_signature(kind, msg)
+    if kind == 'runtime-error':
+        line = next((ln.strip() for ln in msg.splitlines() if 'runtime error' in ln), None)
+        if line:
+            line = re.sub(r"'[^']*'", '<v>', line.split('runtime error:')[1].strip())
+            return 'runtime-error:' + re.sub(r'\d+', 'N', line)[:90]
+    sig = re.sub(r"[‘'`][^’']*[’']", '<name>', F.failure_signature(kind, msg))
+    return re.sub(r'; did you mean.*', '', sig)
 
 
 def report_grouped(ctx, label, cases, results, fails, check, tagger, rounds=4, max_groups=8):
@@ -590,3 +631,499 @@ def report_grouped(ctx, label, cases, results, fails, check, tagger, rounds=4, m
                       f'--- original (shrunk) ---\n{F.render(small)}--- options ---\n{small.get("param") or small.get("meta")}\n'
                       f'--- transformed (unshrunk case) ---\n{results[idx].get("newtext", "")[:3000]}',
                       {'prog': prog, 'inputs': inputs})
+
+
+# ============================================================================================ C34 generators
+class GenSig(F.Gen):
+    """C34 call trees: kernel(nv, n, m, flag, ia, ra, ib, k, x) with the locals wc(2:7), wv(nv) calling the helper
+    units of one family:  seq (sequence association), dup (duplicated actual arguments), shape (assumed-shape
+    dummies), dtype (derived-type arguments), tbp (type-bound calls).  The standard helpers h1/h2 stay in the mix
+    (their call sites must survive unchanged)."""
+
+    NV = (2, 4)
+
+    def __init__(self, rng, family, features=()):
+        super().__init__(rng, tuple(features) + ('call', 'twod'))
+        self.family = family
+        self.opts = {}
+
+    # ---- shared pieces
+    def out_scalar(self):
+        return V(self.rng.choice(['t1', 't2', 'k']))
+
+    def count_expr(self, c):
+        """An expression with value in 1..c."""
+        if c > 1 and self.rng.random() < 0.3:
+            return call('min', call('max', V('n'), N(1)), N(c))
+        return N(c)
+
+    def make_helpers(self):
+        base = super().make_helpers()
+        mine = getattr(self, 'fam_' + self.family)()
+        self.helpers = self.helpers + [h for h in mine for _ in range(3)]
+        return base + [h['unit'] for h in mine] + getattr(self, 'extra_units', [])
+
+    def program(self, nstmts=5, depth=2):
+        prog = super().program(nstmts, depth)
+        kern = prog['units'][0]
+        kern['args'].insert(0, 'nv')
+        kern['decls'].insert(0, decl('nv', 'int', 'in'))
+        kern['decls'] += [decl('wc', 'int', 'local', [(2, 7)]), xdecl('wv', 'int', 'local', [(None, V('nv'))])]
+        init = [do('i', N(2), N(7), [assign(el('wc', V('i')), mod_(add(op('prod', V('i'), N(3)), V('m')), 11))]),
+                do('i', N(1), V('nv'), [assign(el('wv', V('i')), mod_(add(V('i'), V('n'), N(20)), 7))])]
+        body = kern['body']
+        names = {h['unit']['name'] for h in self.helpers[2:]}
+        if not any(s['s'] == 'call' and s['name'] in names for s in walk_stmts(body)):
+            body += self.rng.choice(self.helpers[2:])['mkcall'](self)
+        # observe the locals
+        tail = [assign(V('t2'), mod_(add(call('sum', V('wc')), call('sum', V('wv'))), 101)), assign(V('k'), mod_(add(V('k'), V('t2'), V('t1')), 97))]
+        kern['body'] = body[:5] + init + body[5:] + tail
+        prog['meta'] = {'family': self.family, 'opts': self.opts}
+        for u in prog['units'][1:]:       # scalar dummies are declared before the arrays whose bounds mention them
+            u['decls'].sort(key=lambda d: 0 if d['name'] in u['args'] and not d['dims'] else 1)
+        if getattr(self, 'types', None):
+            prog['types'] = self.types
+            prog['renderer'] = 'signature'
+        return prog
+
+    def inputs(self, prog, count=4):
+        out = super().inputs(prog, count)
+        for inp in out:
+            inp['nv'] = F.val_int(self.rng.randint(*self.NV))
+        return out
+
+    # ---- family: sequence association
+    SEQ_ARRAYS = {'ia': [(0, 4)], 'ib': [(1, 3), (-1, 1)], 'wc': [(2, 7)]}
+
+    def fam_seq(self):
+        sq1 = unit('sq1', ['v', 'cnt', 'r'], [xdecl('v', 'int', 'inout', [(None, V('cnt'))]), decl('cnt', 'int', 'in'), decl('r', 'int', 'out'), decl('q', 'int')],
+                   [assign(V('r'), N(0)),
+                    do('q', N(1), V('cnt'), [assign(el('v', V('q')), mod_(add(op('prod', el('v', V('q')), N(2)), V('q')), 13)),
+                                             assign(V('r'), add(V('r'), el('v', V('q'))))])])
+        sq2 = unit('sq2', ['v', 'c1', 'c2', 's'], [xdecl('v', 'int', 'in', [(None, V('c1')), (None, V('c2'))]), decl('c1', 'int', 'in'), decl('c2', 'int', 'in'),
+                                                  decl('s', 'int', 'inout'), decl('q', 'int')],
+                   [do('q', N(1), V('c2'), [assign(V('s'), mod_(add(V('s'), el('v', V('c1'), V('q')), op('prod', el('v', N(1), V('q')), V('q'))), 31))]),
+                    assign(V('s'), mod_(add(V('s'), call('sum', V('v'))), 41))])
+        hi3 = add(V('lo'), V('cnt'), N(-1))
+        sq3 = unit('sq3', ['v', 'lo', 'cnt', 'r'], [xdecl('v', 'int', 'inout', [(V('lo'), hi3)]), decl('lo', 'int', 'in'), decl('cnt', 'int', 'in'),
+                                                   decl('r', 'int', 'out'), decl('q', 'int')],
+                   [assign(V('r'), add(op('prod', call('lbound', V('v'), N(1)), N(100)), call('ubound', V('v'), N(1)))),
+                    do('q', V('lo'), hi3, [assign(el('v', V('q')), mod_(add(el('v', V('q')), V('q')), 11))]),
+                    assign(V('r'), mod_(add(V('r'), el('v', V('lo'))), 211))])
+
+        def actual(g, need_write):
+            """-> (actual expression, number of elements available from it)"""
+            rng = g.rng
+            arr = rng.choice(['ia', 'ib', 'ib', 'wc'])
+            dims = g.SEQ_ARRAYS[arr]
+            size = 1
+            for lo, hi in dims:
+                size *= hi - lo + 1
+            r = rng.random()
+            if r < 0.12:
+                return V(arr), size
+            if r < 0.22 and len(dims) == 1:
+                lo, hi = dims[0]
+                a, b = sorted(rng.sample(range(lo, hi + 1), 2))
+                return el(arr, rng_(N(a), N(b))), b - a + 1
+            if r < 0.3 and len(dims) == 2:
+                j = rng.randint(dims[1][0], dims[1][1])
+                return el(arr, rng_(), N(j)), dims[0][1] - dims[0][0] + 1
+            # element actual: sequence association with the rest of the array
+            subs, lin, stride = [], 0, 1
+            for d, (lo, hi) in enumerate(dims):
+                p = rng.randint(lo, hi) if len(dims) == 1 or rng.random() < 0.4 else rng.randint(lo + 1, hi) if d == 0 else rng.randint(lo, hi - 1)
+                if d == 0 and p < hi and rng.random() < 0.2:
+                    subs.append(add(N(p), mod_(call('abs', V('n')), 2)))      # p or p + 1
+                    p += 1
+                else:
+                    subs.append(N(p))
+                lin += (p - lo) * stride
+                stride *= hi - lo + 1
+            return el(arr, *subs), size - lin
+
+        def call1(g):
+            a, avail = actual(g, True)
+            c = g.rng.randint(min(avail, 2), min(avail, 5))
+            return [callst('sq1', a, g.count_expr(c) if c < 3 else N(c), g.out_scalar())]
+
+        def call2(g):
+            a, avail = actual(g, False)
+            c1 = g.rng.randint(1, min(3, avail))
+            c2 = g.rng.randint(1, min(3, avail // c1))
+            return [callst('sq2', a, N(c1), N(c2), g.out_scalar())]
+
+        def call3(g):
+            a, avail = actual(g, True)
+            c = g.rng.randint(1, min(avail, 4))
+            return [callst('sq3', a, N(g.rng.choice([0, 1, 2, -1])), g.count_expr(c), g.out_scalar())]
+        return [{'unit': sq1, 'mkcall': call1}, {'unit': sq2, 'mkcall': call2}, {'unit': sq3, 'mkcall': call3}]
+
+    # ---- family: duplicated actual arguments
+    def fam_dup(self):
+        rng = self.rng
+        self.opts.update(size=rng.choice(['dupvar', 'dupvar', 'duplit', 'nodup']), arr=rng.choice(['dup', 'dup', 'nodup']),
+                         recurse=rng.random() < 0.7, rename=rng.random() < 0.4, spec_use=rng.random() < 0.5, nested=rng.random() < 0.6)
+        names = rng.choice([('n1', 'n2'), ('klon', 'klev'), ('n_a', 'n_b')])
+        n1, n2 = names
+        lim = call('min', V(n1), V(n2))
+        d1 = [decl(n1, 'int', 'in'), decl(n2, 'int', 'in'), xdecl('a', 'int', 'in', [(N(0), N(4))]), xdecl('b', 'int', 'in', [(N(0), N(4))]),
+              decl('r', 'int', 'out'), decl('q', 'int'), xdecl('tmp', 'int', 'local', [(None, V(n2) if self.opts['spec_use'] else N(4))])]
+        b1 = [assign(V('r'), N(0)), assign(V('tmp'), N(1)),
+              do('q', N(1), lim, [assign(el('tmp', V('q')), add(el('a', mod_(V('q'), 5)), el('b', mod_(add(V('q'), V(n2)), 5)))),
+                                  assign(V('r'), mod_(add(V('r'), op('prod', el('tmp', V('q')), V('q'))), 37))]),
+              assign(V('r'), mod_(add(V('r'), op('prod', V(n1), N(3)), V(n2)), 41))]
+        units = []
+        if self.opts['nested']:
+            d2 = [decl('m1', 'int', 'in'), decl('m2', 'int', 'in'), xdecl('c', 'int', 'in', [(None, V('m1'))]), decl('s', 'int', 'inout'), decl('q', 'int')]
+            b2 = [do('q', N(1), call('min', V('m1'), V('m2')), [assign(V('s'), mod_(add(V('s'), el('c', V('q')), V('m2')), 43))])]
+            units.append(unit('dp2', ['m1', 'm2', 'c', 's'], d2, b2))
+            arr = V('tmp') if self.opts['spec_use'] else el('tmp', rng_(N(1), V(n2)))
+            b1.append(callst('dp2', V(n2), V(n1), arr, V('r')))
+        dp1 = unit('dp1', [n1, n2, 'a', 'b', 'r'], d1, b1)
+        self.extra_units = units
+
+        def call1(g):
+            o = g.opts
+            s1, s2 = {'dupvar': (V('nv'), V('nv')), 'duplit': (N(3), N(3)), 'nodup': (V('nv'), N(g.rng.randint(2, 4)))}[o['size']]
+            if o['size'] == 'nodup' and g.rng.random() < 0.5:
+                s1, s2 = s2, s1
+            a1, a2 = (V('ia'), V('ia')) if o['arr'] == 'dup' else (V('ia'), el('wc', rng_(N(2), N(6))))
+            return [callst('dp1', s1, s2, a1, a2, g.out_scalar())]
+        return [{'unit': dp1, 'mkcall': call1}]
+
+    # ---- family: assumed-shape dummies made explicit
+    def fam_shape(self):
+        rng = self.rng
+        self.opts.update(clash=('clash' in self.f), nested=rng.random() < 0.5, whole_op=rng.random() < 0.5)
+        tmpname = 'nv' if self.opts['clash'] else 'sz'
+        d1 = [xdecl('a', 'int', 'inout', [(None, ASSUMED)]), decl('r', 'int', 'out'), decl('q', 'int'), decl(tmpname, 'int')]
+        b1 = [assign(V(tmpname), call('size', V('a'))),
+              assign(V('r'), add(op('prod', V(tmpname), N(7)), call('lbound', V('a'), N(1)), op('prod', call('ubound', V('a'), N(1)), N(3)))),
+              do('q', N(1), V(tmpname), [assign(el('a', V('q')), mod_(add(el('a', V('q')), V('q')), 13)),
+                                         assign(V('r'), mod_(add(V('r'), op('prod', el('a', V('q')), V('q'))), 97))])]
+        if self.opts['whole_op']:
+            b1.append(assign(V('a'), add(V('a'), N(1))))
+        units = []
+        if self.opts['nested']:
+            d3 = [xdecl('c', 'int', 'in', [(None, ASSUMED)]), decl('s', 'int', 'inout')]
+            b3 = [assign(V('s'), mod_(add(V('s'), call('sum', V('c')), op('prod', call('size', V('c')), N(5)), el('c', call('size', V('c')))), 89))]
+            units.append(unit('sh3', ['c', 's'], d3, b3))
+            b1.append(callst('sh3', V('a'), V('r')))
+        sh1 = unit('sh1', ['a', 'r'], d1, b1)
+        d2 = [xdecl('b2', 'int', 'in', [(None, ASSUMED), (None, ASSUMED)]), decl('s', 'int', 'inout')]
+        b2 = [assign(V('s'), mod_(add(V('s'), op('prod', call('size', V('b2'), N(1)), N(5)), call('size', V('b2'), N(2)), call('sum', V('b2')), el('b2', N(1), N(1)),
+                                      op('prod', call('ubound', V('b2'), N(2)), N(11))), 89))]
+        sh2 = unit('sh2', ['b2', 's'], d2, b2)
+        self.extra_units = units
+
+        def call1(g):
+            r = g.rng.random()
+            if r < 0.2:
+                a = V('ia')
+            elif r < 0.4:
+                a = V('wc')
+            elif r < 0.6:
+                a = V('wv')
+            elif r < 0.7:
+                lo, hi = sorted(g.rng.sample(range(0, 5), 2))
+                a = el('ia', rng_(N(lo), N(hi)))
+            elif r < 0.8:
+                a = el('ib', rng_(), N(g.rng.randint(-1, 1)))
+            elif r < 0.9:
+                a = el('ib', N(g.rng.randint(1, 3)), rng_())
+            else:
+                a = el('wv', rng_(N(2), V('nv')))
+            return [callst('sh1', a, g.out_scalar())]
+
+        def call2(g):
+            r = g.rng.random()
+            a = V('ib') if r < 0.6 else el('ib', rng_(N(1), N(2)), rng_()) if r < 0.8 else el('ib', rng_(), rng_(N(0), N(1)))
+            return [callst('sh2', a, g.out_scalar())]
+        return [{'unit': sh1, 'mkcall': call1}, {'unit': sh2, 'mkcall': call2}]
+
+
+def sig_tags(prog):
+    """Call-site classes of a C34 program (violation key only)."""
+    fam = prog['meta']['family']
+    units = {u['name']: u for u in prog['units']}
+    tags = set()
+    for u in prog['units']:
+        for s in walk_stmts(u['body']):
+            if s['s'] != 'call' or s['name'] not in units:
+                continue
+            cal = units[s['name']]
+            if fam == 'seq' and s['name'].startswith('sq'):
+                a = s['args'][0]
+                if a['k'] == 'var':
+                    tags.add('whole')
+                elif any(c['k'] == 'range' for c in a['c']):
+                    tags.add('sec')
+                elif len(a['c']) == 1:
+                    tags.add('e1')
+                else:
+                    tags.add('e2' + ('r2' if s['name'] == 'sq2' else ''))
+            elif fam == 'dup' and s['name'].startswith('dp'):
+                acts = [F.rx(a) for a in s['args']]
+                if len(set(acts)) < len(acts):
+                    ints = [x for x, dn in zip(acts, cal['args']) if not next(d for d in cal['decls'] if d['name'] == dn).get('xdims')]
+                    arrs = [x for x in acts if x not in ints]
+                    if len(set(ints)) < len(ints):
+                        tags.add('dupscalar')
+                    if len(set(arrs)) < len(arrs):
+                        tags.add('duparray')
+                    if len(set(ints)) < len(ints) and any(nm in cal['args'] for d in cal['decls'] if d.get('xdims') and d['name'] not in cal['args']
+                                                           for nm in F_names(d['xdims'])):
+                        tags.add('specuse')
+            elif fam == 'shape' and s['name'].startswith('sh'):
+                a = s['args'][0]
+                if a['k'] == 'var':
+                    decl_ = next((d for d in u['decls'] if d['name'] == a['name']), None)
+                    lb1 = decl_ is not None and (all(lo == 1 for lo, _ in decl_['dims']) if not decl_.get('xdims') else all(lo == NONE for lo, _ in decl_['xdims']))
+                    assumed = decl_ is not None and decl_.get('xdims') and any(hi == ASSUMED for _, hi in decl_['xdims'])
+                    tags.add('whole' if lb1 or assumed else 'wholelb')
+                    if decl_ is not None and decl_.get('xdims') and not assumed:
+                        tags.add('vardim')
+                else:
+                    nr = sum(1 for c in a['c'] if c['k'] == 'range')
+                    decl_ = next((d for d in u['decls'] if d['name'] == a['name']), None)
+                    lbs = [lo for (lo, _), c in zip(decl_['dims'], a['c']) if c['k'] == 'range'] if decl_ is not None and not decl_.get('xdims') else [1]
+                    tags.add('sec' if nr == len(a['c']) else 'secrank' if all(lo == 1 for lo in lbs) else 'secranklb')
+    o = prog['meta'].get('opts', {})
+    if fam == 'shape' and o.get('clash'):
+        tags.add('clash')
+    if fam == 'dup':
+        tags.add('rename' if o.get('rename') else 'keepnames')
+    if fam in ('dtype', 'tbp'):
+        tags |= {'lb%d' % o.get('vlb', 1)} | ({'nested'} if o.get('nested') else set()) | ({'expand'} if o.get('expand_after') else set())
+        if any(s.get('tbp') for u in prog['units'] for s in walk_stmts(u['body']) if s['s'] == 'call'):
+            tags.add('tbcall')
+    return fam + ':' + ('+'.join(sorted(tags)) or 'none')
+
+
+def gen_sig_case(rng, family, features=(), ninputs=3):
+    g = GenSig(rng, family, features)
+    prog = g.program(nstmts=rng.randint(3, 6), depth=2)
+    return prog, g.inputs(prog, ninputs)
+
+
+def transform_sig(text, prog, workdir):
+    fam = prog['meta']['family']
+    o = prog['meta'].get('opts', {})
+    sched = make_scheduler(text, workdir)
+    if fam == 'seq':
+        from loki.transformations.sanitise import SequenceAssociationTransformation
+        sched.process(transformation=SequenceAssociationTransformation(resolve_sequence_associations=True))
+    elif fam == 'dup':
+        from loki.transformations.routine_signatures import RemoveDuplicateArgs
+        sched.process(transformation=RemoveDuplicateArgs(recurse_to_kernels=o['recurse'], rename_common=o['rename']))
+    elif fam == 'shape':
+        from loki.transformations.argument_shape import ArgumentArrayShapeAnalysis, ExplicitArgumentArrayShapeTransformation
+        sched.process(transformation=ArgumentArrayShapeAnalysis())
+        sched.process(transformation=ExplicitArgumentArrayShapeTransformation())
+    elif fam in ('dtype', 'tbp'):
+        from loki.transformations.transform_derived_types import DerivedTypeArgumentsTransformation, TypeboundProcedureCallTransformation
+        if fam == 'tbp':
+            sched.process(transformation=TypeboundProcedureCallTransformation(duplicate_typebound_kernels=o.get('dupkern', False)))
+        if fam == 'dtype' or o.get('expand_after'):
+            sched.process(transformation=DerivedTypeArgumentsTransformation(all_derived_types=o.get('all_types', True)))
+    else:
+        raise MachineryError(f'unknown family {fam}')
+    return scheduler_sources(sched)
+
+
+class checked_builds:
+    """Context manager: lib_fm.behaviour_check builds the TRANSFORMED programs (`-new` tags) with -fcheck=bounds,do:
+    an actual argument a rewritten call makes too small for its dummy, or an index a rewritten declaration puts
+    out of bounds, must not go unnoticed."""
+
+    @staticmethod
+    def compile_run(workdir, tag, sources, timeout=120):
+        d, st, err = build_exe(workdir, tag, sources, check=tag.endswith('-new'))
+        if st != 'ok':
+            return st, '', err
+        try:
+            r = subprocess.run(['./a.out'], cwd=d, capture_output=True, text=True, timeout=timeout)
+        except subprocess.TimeoutExpired:
+            return 'timeout', '', 'run timeout'
+        if r.returncode != 0:
+            return 'runtime-error', r.stdout, r.stderr[-2000:]
+        return 'ok', r.stdout, r.stderr
+
+    def __enter__(self):
+        self.saved = F.compile_run
+        F.compile_run = self.compile_run
+        return self
+
+    def __exit__(self, *exc):
+        F.compile_run = self.saved
+        return False
+
+
+# ============================================================================================ derived types (C34 dtype / tbp)
+def rec_decls(name, tname, intent, types, top=True, root=None, prefix=''):
+    """Flat declarations of a record variable (see FMachine.CallUnit BoundComp): placeholder + one decl per component."""
+    root = root or name
+    ph = decl(name, 'rec', intent)
+    ph['tname'] = tname
+    if not top:
+        ph.update(rec=root, field=prefix)
+    out = [ph]
+    for fname, fty, fdims in types[tname]['fields']:
+        if fty.startswith('rec:'):
+            out += rec_decls(f'{name}%{fname}', fty[4:], intent, types, False, root, f'{prefix}%{fname}')
+        else:
+            d = decl(f'{name}%{fname}', fty, intent, fdims)
+            d.update(rec=root, field=f'{prefix}%{fname}')
+            out.append(d)
+    return out
+
+
+def render_sig(prog):
+    """Module layout with derived-type definitions (prog['types']) and record declarations."""
+    lines = ['module kmod', '  implicit none', '  integer, parameter :: jprb = selected_real_kind(13, 300)']
+    for tname, t in prog.get('types', {}).items():
+        lines.append(f'  type {tname}')
+        for fname, fty, fdims in t['fields']:
+            dims = '(' + ', '.join(f'{lo}:{hi}' for lo, hi in fdims) + ')' if fdims else ''
+            ty = f'type({fty[4:]})' if fty.startswith('rec:') else F.TYPES[fty]
+            lines.append(f'    {ty} :: {fname}{dims}')
+        if t.get('bindings'):
+            lines.append('  contains')
+            for bname, target in t['bindings']:
+                lines.append(f'    procedure :: {bname} => {target}')
+        lines.append(f'  end type {tname}')
+    lines.append('contains')
+    for u in prog['units']:
+        pad = '  '
+        lines.append(f"{pad}subroutine {u['name']}({', '.join(u['args'])})")
+        for d in u['decls']:
+            if 'rec' in d:
+                continue
+            if d['type'] == 'rec':
+                kw = 'class' if d.get('passed') else 'type'
+                intent = f", intent({d['intent']})" if d['name'] in u['args'] else ''
+                lines.append(f"{pad}  {kw}({d['tname']}){intent} :: {d['name']}")
+            else:
+                lines.append(pad + '  ' + F.rdecl(d, d['name'] in u['args']))
+        lines += render_tbp(F.rstmts(u['body'], 4, None), u['body'])
+        lines.append(f"{pad}end subroutine {u['name']}")
+    lines.append('end module kmod')
+    return '\n'.join(lines) + '\n'
+
+
+def render_tbp(lines, body):
+    """Calls marked tbp = 'binding' are written `call obj%binding(rest)` (the machine sees the plain call with the
+    passed object as first argument - that is what a type-bound call with the PASS attribute means)."""
+    marks = [s for s in walk_stmts(body) if s['s'] == 'call' and s.get('tbp')]
+    for s in marks:
+        plain = f"call {s['name']}({', '.join(F.rx(a) for a in s['args'])})"
+        tb = f"call {F.rx(s['args'][0])}%{s['tbp']}({', '.join(F.rx(a) for a in s['args'][1:])})"
+        for i, ln in enumerate(lines):
+            if ln.strip() == plain or ln.strip().endswith(') ' + plain):
+                lines[i] = ln.replace(plain, tb)
+                break
+        else:
+            raise MachineryError(f'render_tbp: call not found: {plain}')
+    return lines
+
+
+F.RENDERERS['signature'] = render_sig
+
+
+def _fam_dtype(self, tbp=False):
+    rng = self.rng
+    vlb = rng.choice([0, 1, 1])
+    nested = rng.random() < 0.6
+    self.opts.update(vlb=vlb, nested=nested, all_types=True, tbp=tbp)
+    types = {'t_state': {'fields': [('cnt', 'int', []), ('v', 'int', [(vlb, vlb + 4)]), ('w', 'int', [(1, 3)])]}}
+    if nested:
+        types['t_outer'] = {'fields': [('inner', 'rec:t_state', []), ('tag', 'int', [])]}
+    self.types = types
+    lo, hi = vlb, vlb + 4
+    # dt2(e, s): read-only use
+    d2 = rec_decls('e', 't_state', 'in', types) + [decl('s', 'int', 'inout')]
+    b2 = [assign(V('s'), mod_(add(V('s'), el('e%v', N(lo + 1)), op('prod', V('e%cnt'), N(3)), call('size', V('e%v')), call('sum', V('e%w'))), 89))]
+    dt2 = unit('dt2', ['e', 's'], d2, b2)
+    if tbp:
+        self.opts.update(dupkern=rng.random() < 0.3, expand_after=rng.random() < 0.4)
+    # dt1(d, r): updates components, passes the record on
+    d1 = rec_decls('d', 't_state', 'inout', types) + [decl('r', 'int', 'out'), decl('q', 'int')]
+    b1 = [assign(V('r'), V('d%cnt')),
+          do('q', N(lo), N(hi), [assign(el('d%v', V('q')), mod_(add(el('d%v', V('q')), V('q'), V('d%cnt')), 13)),
+                                 assign(V('r'), mod_(add(V('r'), op('prod', el('d%v', V('q')), add(V('q'), N(1)))), 97))]),
+          assign(V('d%cnt'), mod_(add(V('d%cnt'), N(1)), 7))]
+    if rng.random() < 0.5:
+        b1.append(assign(V('d%w'), add(V('d%w'), V('d%cnt'))))
+    if rng.random() < 0.6:
+        b1.append(callst('dt2', V('d'), V('r')))
+        if tbp and rng.random() < 0.5:
+            b1[-1]['tbp'] = 'peek'
+    dt1 = unit('dt1', ['d', 'r'], d1, b1)
+    units = []
+    hs = []
+    if tbp:
+        types['t_state']['bindings'] = [('upd', 'dt1'), ('peek', 'dt2')]
+        for u in (dt1, dt2):
+            u['decls'][0]['passed'] = True
+
+    def mark(sts, binding):
+        if tbp and rng.random() < 0.75:
+            sts[0]['tbp'] = binding
+        return sts
+
+    def call1(g):
+        tgt = V('st') if not nested or g.rng.random() < 0.6 else V('ou%inner')
+        return mark([callst('dt1', tgt, g.out_scalar())], 'upd')
+
+    def call2(g):
+        tgt = V('st') if not nested or g.rng.random() < 0.5 else V('ou%inner')
+        return mark([callst('dt2', tgt, g.out_scalar())], 'peek')
+    hs += [{'unit': dt1, 'mkcall': call1}, {'unit': dt2, 'mkcall': call2}]
+    if nested:
+        d3 = rec_decls('o', 't_outer', 'inout', types) + [decl('r', 'int', 'out')]
+        b3 = [assign(V('o%tag'), add(V('o%tag'), N(1))),
+              assign(el('o%inner%v', N(lo)), mod_(add(el('o%inner%v', N(hi)), V('o%tag')), 11)),
+              assign(V('r'), add(V('o%tag'), V('o%inner%cnt')))]
+        if rng.random() < 0.7:
+            b3 += mark([callst('dt2', V('o%inner'), V('r'))], 'peek')
+        dt3 = unit('dt3', ['o', 'r'], d3, b3)
+
+        def call3(g):
+            return [callst('dt3', V('ou'), g.out_scalar())]
+        hs.append({'unit': dt3, 'mkcall': call3})
+    self.extra_units = units
+    return hs
+
+
+def _dtype_program(self, prog):
+    """Kernel side of the dtype / tbp families: record locals, their initialisation and observation."""
+    kern = prog['units'][0]
+    types = self.types
+    vlb = self.opts['vlb']
+    kern['decls'] += rec_decls('st', 't_state', 'local', types)
+    init = [assign(V('st%cnt'), V('m')), assign(V('st%v'), V('ia')), assign(V('st%w'), add(V('n'), N(2)))]
+    tail = [assign(V('t2'), mod_(add(V('st%cnt'), call('sum', V('st%v')), call('sum', V('st%w'))), 101)), assign(V('ia'), V('st%v'))]
+    if self.opts['nested']:
+        kern['decls'] += rec_decls('ou', 't_outer', 'local', types)
+        init += [assign(V('ou%tag'), N(3)), assign(V('ou%inner%cnt'), N(2)), assign(V('ou%inner%v'), add(V('ia'), N(1))), assign(V('ou%inner%w'), N(1))]
+        tail += [assign(V('t1'), mod_(add(V('t1'), V('ou%tag'), V('ou%inner%cnt'), call('sum', V('ou%inner%v')), el('ou%inner%v', N(vlb))), 103))]
+    tail.append(assign(V('k'), mod_(add(V('k'), V('t2'), V('t1')), 97)))
+    body = kern['body']
+    kern['body'] = body[:5] + init + body[5:] + tail
+    return prog
+
+
+GenSig.fam_dtype = lambda self: _fam_dtype(self, False)
+GenSig.fam_tbp = lambda self: _fam_dtype(self, True)
+_orig_program = GenSig.program
+
+
+def _program(self, nstmts=5, depth=2):
+    prog = _orig_program(self, nstmts, depth)
+    if self.family in ('dtype', 'tbp'):
+        _dtype_program(self, prog)
+    return prog
+
+
+GenSig.program = _program
